@@ -6,7 +6,8 @@
      * fit / partial_fit: for context-free bandits, TreeBandit, Radius/KNearest/LSHNearest and Clusters over a context-free policy - including the
        shape errors from inside training (context width, fewer rows than clusters are rejected before anything
        is assigned in the repaired code: fixes D9, Clusters history, TreeBandit width);
-     * predict / predict_expectations before the first fit.
+     * predict / predict_expectations before the first fit, and (fix D26) a query whose contexts have another width than the bandit was trained on: the
+       facade rejects it before the policy and its generator are touched (Series.v: vstep);
      * linear policies: a partial_fit with another context width is rejected from inside training by the first arm that has
        rows and leaves the policy and the bandit Leibniz-equal (C17Lin);
      * linear policies with l2_lambda > 0 (scale=False, ordered-field laws; LinPD.v, LinPDFacade.v): in every state a history of facade calls
@@ -18,7 +19,7 @@
     ridge_fits_never_singular); the branch is modelled, and for l2_lambda = 0 the property is REFUTED on the model with a concrete witness
     (finding D22, reproduced on the code: LinAlgError after the first arm was refitted). Ill-typed arguments are outside the model and covered by the 19-class relation. *)
 From Coq Require Import List ZArith Bool Arith QArith Qcanon Permutation.
-From MW Require Import Num Assoc AssocFacts Rng Par CF CFInv CFClean CFForget CFSpec Matrix Lin Warm WarmInv Nbr NbrFacts NbrIndep LshFacts Clu Tree CellFacts Mab FacadeCF FacadeArms MoreFacts NumLaws CFAlg Sim Extra QcInst OrderFacts ExpIrrel LinInv FacadeLin LpInv NbrInv CluTreeInv FacadeAll ToyFacts C09All C10All LinForget LinSim MatrixFacts GaussJordan LinSpec NbrIndepGen CluIndep C17Lin WarmIdem C14More LshScale TreeLeaf Rename PopSpec CopyFacts StatFacts CluBatch LinWarm C17Singular LinPD LinPDFacade.
+From MW Require Import Num Assoc AssocFacts Rng Par CF CFInv CFClean CFForget CFSpec Matrix Lin Warm WarmInv Nbr NbrFacts NbrIndep LshFacts Clu Tree CellFacts Mab FacadeCF FacadeArms MoreFacts NumLaws CFAlg Sim Extra QcInst OrderFacts ExpIrrel LinInv FacadeLin LpInv NbrInv CluTreeInv FacadeAll ToyFacts C09All C10All LinForget LinSim MatrixFacts GaussJordan LinSpec NbrIndepGen CluIndep C17Lin WarmIdem C14More LshScale TreeLeaf Rename PopSpec CopyFacts StatFacts CluBatch LinWarm C17Singular LinPD LinPDFacade Series.
 Import ListNotations.
 
 Theorem C17_rejected_arm_or_warm_start_call_changes_nothing :
@@ -86,6 +87,21 @@ Theorem C17_rejected_singular_partial_fit_at_l2_zero_refuted :
   beta_of (fst (step QcNum Z.eqb ToyRng d22_fitted d22_call)) 1 <> [qz 1; qz 2].
 Proof. exact @rejected_singular_partial_fit_refuted. Qed.
 Print Assumptions C17_rejected_singular_partial_fit_at_l2_zero_refuted.
+
+Theorem C17_query_of_another_width_is_rejected_unchanged :
+  forall (R A G : Type) (N : Num R) (aeqb : A -> A -> bool) (RG : RngOps R G) 
+    (m : (@mab R A G)) (cx : option (@ctxs R)) (orc : (@oracle R A)),
+  query_shape_ok (m_imp m) cx = false ->
+  vstep N aeqb RG m (Predict cx orc) = (m, ORejected) /\
+  vstep N aeqb RG m (PredictExp cx orc) = (m, ORejected).
+Proof. exact @query_of_another_width_is_rejected_unchanged. Qed.
+Print Assumptions C17_query_of_another_width_is_rejected_unchanged.
+
+Theorem C17_width_validation_passes_the_call_on_or_rejects_it_unchanged :
+  forall (R A G : Type) (N : Num R) (aeqb : A -> A -> bool) (RG : RngOps R G) (m : (@mab R A G)) (o : (@op R A)),
+  vstep N aeqb RG m o = step N aeqb RG m o \/ vstep N aeqb RG m o = (m, ORejected).
+Proof. exact @vstep_is_step_or_rejects_unchanged. Qed.
+Print Assumptions C17_width_validation_passes_the_call_on_or_rejects_it_unchanged.
 
 Theorem C17_rejected_linear_training_call_changes_nothing_for_positive_lambda :
   forall (R A G : Type) (N : Num R),
